@@ -30,12 +30,15 @@ CONSTANTS
   MatcherKinds,  \* matcher kinds allowed on label a
   MatcherKindsB, \* matcher kinds allowed on label b
   Leaves,        \* subset of {"sel","seloff","num","time","vec"}
-  UnFns,         \* subset of {"abs","neg","scalar","vecs","absent","rate","lot","lotsub","absentot","lrepc","lrepa","lrepcx","lrepdel","lrepdelx","ljoin","ljoine"}
-  AggOps,        \* subset of {"sum","count","topk","cv"}
+  UnFns,         \* subset of {"abs","neg","scalar","vecs","absent","rate","lot","lotsub","absentot","lrepc","lrepa","lrepcx","lrepdel","lrepdelx","ljoin","ljoine",
+                 \*            "sort","clampmax","round","timestamp","maxot","countot","presentot","hq"}
+  AggOps,        \* subset of {"sum","count","topk","cv","group","max","min"}
   AggLabelSets,  \* label sets usable in by()/without()
   ArithOps, CmpOps, SetOps,  \* binary operators
   MatchSets,     \* label sets usable in on()/ignoring()
   GroupIncs,     \* label sets usable in group_left()/group_right(); {} switches grouping off
+  IgnEmpty,      \* BOOLEAN: also generate `ignoring()` with an empty list
+  DupLabels,     \* BOOLEAN: also generate by()/without() lists that repeat a label
   Fixes,         \* which repairs proposed under /verif/fixes the analysed tree contains: subset of {"F6", "OnForced", "EmptyEq", "StaticVal"}
   DBSeries,      \* bound on the number of series per metric in a database
   DBA, DBB, DBC, \* label values (besides absent) stored series may carry for a, b, c
@@ -43,6 +46,7 @@ CONSTANTS
 
 NaN   == -2000000000       \* stands for the float NaN
 TimeV == 3600              \* time() at the evaluation timestamp
+SamplesInRange == 20       \* samples of one series inside a [5m] range (one every 15s)
 StoredLabels == {"a", "b", "c"}
 Labels == StoredLabels \cup {"n"}       \* "n" is __name__
 Absent == "-"
@@ -61,7 +65,8 @@ VecE(e)             == [k |-> "vec", e |-> e]
 Fn(f, e)            == [k |-> "fn", f |-> f, e |-> e, dst |-> "", src |-> "", re |-> "", repl |-> ""]
 LRep(e, dst, repl, src, re) == [k |-> "fn", f |-> "lrep", e |-> e, dst |-> dst, src |-> src, re |-> re, repl |-> repl]
 LJoin(e, dst, sep)  == [k |-> "fn", f |-> "ljoin", e |-> e, dst |-> dst, src |-> "", re |-> "", repl |-> sep]   \* repl holds the separator
-Agg(op, mod, ls, e) == [k |-> "agg", op |-> op, mod |-> mod, ls |-> ls, e |-> e]
+\* dup: the first label of the list is written twice, `by(a, a, b)`; grouping is by label *sets* on both sides
+Agg(op, mod, ls, dup, e) == [k |-> "agg", op |-> op, mod |-> mod, ls |-> ls, dup |-> dup, e |-> e]
 Bin(op, bool, vm, ls, grp, inc, l, r) ==
   [k |-> "bin", op |-> op, bool |-> bool, vm |-> vm, ls |-> ls, grp |-> grp, inc |-> inc, l |-> l, r |-> r]
 
@@ -182,7 +187,7 @@ parseAggregation(e, path) ==
 
 \* func walkAggregation(expr, n) []Source
 walkAggregation(e, path) ==
-  CASE e.op = "sum"   -> SeqMap(parseAggregation(e, path), LAMBDA s : excludeLabel(s, {"n"}))
+  CASE e.op \in {"sum", "group", "max", "min"} -> SeqMap(parseAggregation(e, path), LAMBDA s : excludeLabel(s, {"n"}))
     [] e.op = "count" -> SeqMap(parseAggregation(e, path), LAMBDA s : excludeLabel(forgetValue(s), {"n"}))
     [] e.op = "cv"    -> SeqMap(parseAggregation(e, path), LAMBDA s :
                           excludeLabel(guaranteeLabel(includeLabel(forgetValue(s), {"c"}), {"c"}), {"n"}))
@@ -190,8 +195,9 @@ walkAggregation(e, path) ==
 
 \* func parsePromQLFunc(s, expr, n) Source   (the families the fragment uses)
 parsePromQLFunc(s, e) ==
-  CASE e.f \in {"abs", "rate"} -> guaranteeLabel(forgetValue([s EXCEPT !.ret = "vector"]), s.sgua)
-    [] e.f \in {"lot", "lotsub"} -> guaranteeLabel([s EXCEPT !.ret = "vector"], s.sgua)
+  CASE e.f \in {"abs", "rate", "clampmax", "round", "timestamp"} -> guaranteeLabel(forgetValue([s EXCEPT !.ret = "vector"]), s.sgua)
+    [] e.f \in {"lot", "lotsub", "maxot", "countot", "presentot", "hq"} -> guaranteeLabel([s EXCEPT !.ret = "vector"], s.sgua)
+    [] e.f = "sort" -> [s EXCEPT !.ret = "vector"]         \* "sort", "sort_desc": no change to labels, nothing guaranteed
     [] e.f \in {"absent", "absentot"} ->
          LET a0 == [s EXCEPT !.ret = "vector", !.fixed = TRUE, !.inc = {}, !.gua = {}]
              a == IF SV THEN [a0 EXCEPT !.always = FALSE, !.known = FALSE, !.dead = FALSE, !.dkind = "", !.dpath = "none"] ELSE a0
@@ -346,6 +352,12 @@ Aggregate(e, S) ==
       keys == {Key(s) : s \in S}
   IN CASE e.op = "sum"   -> VecR({Mk(key, SumV({s \in S : Key(s) = key})) : key \in keys})
        [] e.op = "count" -> VecR({Mk(key, Cardinality({s \in S : Key(s) = key})) : key \in keys})
+       [] e.op = "group" -> VecR({Mk(key, 1) : key \in keys})
+       [] e.op \in {"max", "min"} ->     \* NaN only if every sample of the group is NaN
+            LET pick(G) == LET nums == {s.v : s \in G} \ {NaN}
+                           IN IF nums = {} THEN NaN
+                              ELSE CHOOSE x \in nums : \A y \in nums : IF e.op = "max" THEN x >= y ELSE x <= y
+            IN VecR({Mk(key, pick({s \in S : Key(s) = key})) : key \in keys})
        [] e.op = "topk"  -> VecR(S)          \* topk(9, ...): more than any group holds
        [] e.op = "cv"    ->   \* the value label is set first, then the ordinary grouping applies (by() keeps it)
             LET keep2 == IF e.mod = "without" THEN StoredLabels \ e.ls ELSE e.ls \cup {"c"}
@@ -415,7 +427,14 @@ Conc(e, db) ==
          ELSE (CASE e.f = "abs"    -> MapSeries(x.s, LAMBDA s : [DropName(s) EXCEPT !.v = IF s.v = NaN \/ s.v >= 0 THEN s.v ELSE 0 - s.v])
                 [] e.f = "neg"    -> MapSeries(x.s, LAMBDA s : [DropName(s) EXCEPT !.v = IF s.v = NaN THEN NaN ELSE 0 - s.v])
                 [] e.f = "rate"   -> MapSeries(x.s, LAMBDA s : [DropName(s) EXCEPT !.v = 0])
-                [] e.f \in {"lot", "lotsub"} -> x
+                [] e.f \in {"lot", "lotsub", "sort"} -> x
+                [] e.f \in {"round", "maxot"} -> MapSeries(x.s, DropName)
+                [] e.f = "clampmax" -> MapSeries(x.s, LAMBDA s : [DropName(s) EXCEPT !.v = IF s.v # NaN /\ s.v > 1 THEN 1 ELSE s.v])
+                \* timestamp of the sample: a plain selector with offset 1m sees the sample written one minute earlier
+                [] e.f = "timestamp" -> MapSeries(x.s, LAMBDA s : [DropName(s) EXCEPT !.v = IF e.e.k = "sel" /\ e.e.off THEN TimeV - 60 ELSE TimeV])
+                [] e.f = "countot" -> MapSeries(x.s, LAMBDA s : [DropName(s) EXCEPT !.v = SamplesInRange])
+                [] e.f = "presentot" -> MapSeries(x.s, LAMBDA s : [DropName(s) EXCEPT !.v = 1])
+                [] e.f = "hq" -> VecR({})       \* histogram_quantile: series without an `le` label are ignored
                 [] e.f = "scalar" -> IF Cardinality(x.s) = 1 THEN ScaR((CHOOSE s \in x.s : TRUE).v) ELSE ScaR(NaN)
                 [] e.f \in {"absent", "absentot"} -> IF x.s = {} THEN VecR({AbsentLabels(e.e)}) ELSE VecR({})
                 [] e.f = "lrep"   -> LabelReplace(e, x.s)
@@ -488,9 +507,9 @@ LeafSet ==
 
 UnarySet(e) ==
   LET v == Ty(e) = "v" IN
-  (IF v THEN {Fn(f, e) : f \in UnFns \cap {"abs", "neg", "scalar", "absent", "lotsub"}} ELSE {})
+  (IF v THEN {Fn(f, e) : f \in UnFns \cap {"abs", "neg", "scalar", "absent", "lotsub", "sort", "clampmax", "round", "timestamp", "hq"}} ELSE {})
   \cup (IF ~v /\ "vecs" \in UnFns /\ e.k # "num" THEN {VecE(e)} ELSE {})
-  \cup (IF e.k = "sel" THEN {Fn(f, e) : f \in UnFns \cap {"rate", "lot", "absentot"}} ELSE {})
+  \cup (IF e.k = "sel" THEN {Fn(f, e) : f \in UnFns \cap {"rate", "lot", "absentot", "maxot", "countot", "presentot"}} ELSE {})
   \cup (IF v /\ "lrepc" \in UnFns THEN {LRep(e, "c", "x", "a", ".*")} ELSE {})
   \cup (IF v /\ "lrepcx" \in UnFns THEN {LRep(e, "c", "x", "a", "x")} ELSE {})
   \cup (IF v /\ "lrepa" \in UnFns THEN {LRep(e, "a", "x", "b", ".*")} ELSE {})
@@ -498,13 +517,15 @@ UnarySet(e) ==
   \cup (IF v /\ "lrepdelx" \in UnFns THEN {LRep(e, "a", "", "a", "x")} ELSE {})
   \cup (IF v /\ "ljoin" \in UnFns THEN {LJoin(e, "c", ",")} ELSE {})
   \cup (IF v /\ "ljoine" \in UnFns THEN {LJoin(e, "c", "")} ELSE {})
-  \cup (IF v THEN {Agg(op, mod, ls, e) : op \in AggOps, mod \in {"by", "without"}, ls \in AggLabelSets} ELSE {})
-  \cup (IF v THEN {Agg(op, "none", {}, e) : op \in AggOps} ELSE {})
+  \cup (IF v THEN {Agg(op, mod, ls, FALSE, e) : op \in AggOps, mod \in {"by", "without"}, ls \in AggLabelSets} ELSE {})
+  \cup (IF v /\ DupLabels THEN {Agg(op, mod, ls, TRUE, e) : op \in AggOps, mod \in {"by", "without"}, ls \in AggLabelSets \ {{}}} ELSE {})
+  \cup (IF v THEN {Agg(op, "none", {}, FALSE, e) : op \in AggOps} ELSE {})
 
 BinarySet(l, r) ==
   LET vv == Ty(l) = "v" /\ Ty(r) = "v"
       ss == Ty(l) = "s" /\ Ty(r) = "s"
       mods == {<<"none", {}>>} \cup {<<"on", ls>> : ls \in MatchSets} \cup {<<"ign", ls>> : ls \in MatchSets \ {{}}}
+              \cup (IF IgnEmpty THEN {<<"ign", {}>>} ELSE {})
       \* group_left / group_right need an explicit on(...) / ignoring(...)
       grps(md) == {<<"none", {}>>} \cup
                   {<<g, inc>> : g \in (IF md[1] = "none" THEN {} ELSE {"left", "right"}),
